@@ -88,6 +88,8 @@ def fresh_call(kind, src, names, budget):
         out = outcome(lambda: p.parse(src), 'parse')
     elif kind == 'names':
         out = outcome(lambda: list(p.list_names(src)), 'names')
+    elif kind == 'eval-nonames':
+        out = outcome(lambda: p.eval(src, max_ops_evaluated=budget), 'eval')
     else:
         out = outcome(lambda: p.eval(src, names, max_ops_evaluated=budget), 'eval')
     if key is not None and (names is None or not has_callable(names)):
@@ -131,6 +133,9 @@ def run_sequence(ops, case):
             elif kind == 'names':
                 so = outcome(lambda: list(p.list_names(src)), 'names')
                 fo = fresh_call('names', src, None, None)
+            elif op[2] is None:
+                so = outcome(lambda: p.eval(src, max_ops_evaluated=op[3]), 'eval')
+                fo = fresh_call('eval-nonames', src, None, op[3])
             else:
                 i, budget = op[2], op[3]
                 so = outcome(lambda: p.eval(src, sn[i], max_ops_evaluated=budget), 'eval')
@@ -141,7 +146,7 @@ def run_sequence(ops, case):
                 bad(f'history-dependent:{kind}', f'{kind}({src!r}' + (f', names{op[2]}, budget {op[3]}' if kind == 'eval' else '') +
                     f') on the used parser gave {so!r}, on a fresh parser {fo!r}')
                 break
-            if kind == 'eval' and cn(sn[op[2]]) != cn(fn[op[2]]):
+            if kind == 'eval' and op[2] is not None and cn(sn[op[2]]) != cn(fn[op[2]]):
                 bad('history-dependent:names', f'eval({src!r}) left names {sn[op[2]]!r} on the used parser, {fn[op[2]]!r} on a fresh one')
                 break
             if so[0] == 'error':
@@ -242,6 +247,8 @@ def cases(draw):
             ops.append(('eval', pick(VALID + RUNERR), n(3), pick([100, 100, 1000, 4, 2])))
         elif r < 45:
             ops.append(('eval', pick(SYNERR + LEXERR), n(3), 100))
+        elif r < 48:
+            ops.append(('eval', pick(['zq = 7', 'zq', 'g = v => v * 3', 'g(2)', 'x = 1\ny = (', 'x', 'len = 5', 'len([1])']), None, 100))
         elif r < 52:
             ops.append(('eval', pick(LAMBDA_DEF), n(3), 100))
         elif r < 62:
